@@ -17,6 +17,8 @@ Clauses(rec) ==
   \cup If(o.kind = "ok" /\ i.tail # 0 /\ i.sfh = 0 /\ Spaced(i) /\
           \E h \in SetOf(o.lost) : TimeOf(i.pat, h) > TimeOf(i.pat, i.nhead) - i.w,
           "C16_no_header_younger_than_the_pruning_window_deleted")
+  \cup If(o.knownRes = "nil", "C16_known_header_is_refused")
+  \cup If(o.knownRes # "" /\ (o.knownTail # o.tail \/ Len(o.knownLost) # 0), "C16_refused_header_does_not_move_the_tail")
 TInit == l = 1 /\ in = [bt |-> 0] /\ phase = "trace" /\ out = Res("", 0)
 TNext == /\ l <= Len(Trace)
          /\ LET F == Clauses(Trace[l]) IN IF F = {} THEN TRUE ELSE PrintT(ToJson([k |-> "FAIL", l |-> l, tr |-> Trace[l].tr, preds |-> F]))
